@@ -2,7 +2,10 @@
    a sequence needs every element in order, '|' takes the first alternative that matches, '&' accepts its operands in any
    order with each required one exactly once, repetition is greedy and never
    gives back, lookaheads consume nothing, and every whitespace-skipping element first consumes leading whitespace
-   (even when it then matches nothing).  `in_class` is the boolean predicate saying which grammars the theorem covers. *)
+   (even when it then matches nothing); a repetition with stop_on goes on while the stop expression does not match; SkipTo
+   advances one character at a time to the first position where its target matches (tried there without the target's own
+   whitespace skip), failing at the end of the text.  `in_class` is the boolean predicate saying which grammars the theorem
+   covers. *)
 From Coq Require Import List ZArith NArith Bool Arith.
 From PP Require Import Model.Str Model.Results Model.Prog Model.Core.
 Import ListNotations.
@@ -40,6 +43,16 @@ Fixpoint join_strings_go (sep : str) (l : list tok) (nonempty : bool) : list str
     pre ++ body ++ join_strings_go sep rest (nonempty || negb (match pre ++ body with [] => true | _ => false end))
   end.
 Definition join_strings (sep : str) (l : list tok) : list str := join_strings_go sep l false.
+
+(* SkipTo calls its target WITHOUT pre-parse (`self.expr._parse(instring, tmploc, do_actions=False, callPreParse=False)`):
+   at each position of the scan the target is tried exactly there, without the leading whitespace skip of its own (this is
+   why the skipped text keeps its trailing blanks).  The reading says so through `nopre target`: the same element with
+   `callPreparse` off, i.e. an element that does not consume leading whitespace itself (its components do, as always). *)
+Definition nopre_attrs (a : attrs) : attrs :=
+  {| nid := nid a; rsname := rsname a; modalr := modalr a; aslist := aslist a; skipws := skipws a; white := white a;
+     callpre := false; mayidx := mayidx a; custom := custom a; hasmsg := hasmsg a; acts := acts a;
+     calltry := calltry a; slen := slen a |}.
+Definition nopre (e : expr) : expr := set_attrs e (nopre_attrs (attrs_of e)).
 
 Section Peg.
 Variable G : env.
@@ -100,6 +113,31 @@ Section Level.
         end
       | r => r
       end
+    end.
+  (* SkipTo: from the current position, one character at a time, up to and including the end of the text: the first position
+     at which the target matches (tried exactly there: `nopre`); no such position = no match.  `fail_on` matching at a
+     position reached before the target was found makes the SkipTo fail ("if found before the target expression is found,
+     the SkipTo is not a match").  n bounds the number of positions (length s + 2 suffices). *)
+  Fixpoint peg_skip_scan (n : nat) (target : expr) (failon : option expr) (tl : nat) : res :=
+    match n with
+    | 0 => PFail
+    | S n' =>
+      if Nat.ltb (length s) tl then PFail
+      else
+        let try_target :=
+          match rec (nopre target) tl with
+          | POk _ _ => POk tl []
+          | PFail => peg_skip_scan n' target failon (S tl)
+          | r => r
+          end in
+        match failon with
+        | None => try_target
+        | Some fo => match rec fo tl with
+                     | POk _ _ => PFail
+                     | PFail => try_target
+                     | r => r
+                     end
+        end
     end.
   (* '&' (Each): "accepts its operands in any order with each required one exactly once": a plain operand exactly once, the
      content of an Opt at most once, of a ZeroOrMore any number of times, of a OneOrMore at least once.  At each point the
@@ -204,6 +242,18 @@ Fixpoint peg (fuel : nat) (e : expr) (loc0 : nat) : res :=
       | PFail => if zero then POk loc [] else PFail
       | r => r
       end
+    | Skip _ _ target incl [] failon =>
+      (* the token is the skipped text (after SkipTo's own leading whitespace skip), followed, with include=True, by the
+         tokens of the target, which is then consumed.  (SkipTo's private ignore expressions are not in the reading.) *)
+      match peg_skip_scan (peg f) (length s + 2) target failon loc with
+      | POk tl _ =>
+        if incl then match peg f (nopre target) tl with
+                     | POk l ts => POk l (TStr (slice_ s loc tl) :: ts)
+                     | r => r
+                     end
+        else POk tl [TStr (slice_ s loc tl)]
+      | r => r
+      end
     | Fwd _ _ (Some id) => match nth_error G id with Some c => peg f c loc | None => PFail end
     | _ => PFail
     end
@@ -242,12 +292,28 @@ Fixpoint flat_class (e : expr) : bool :=
     | ENot | EFollowedBy | ELookahead => true          (* they yield no token *)
     | _ => false
     end
-  | Rep _ _ _ b None => flat_class b
+  | Rep _ _ _ b _ => flat_class b                 (* the stop_on sentinel yields no token *)
   | _ => false
   end.
 
+Definition nonskip (c : expr) : bool := negb (callpre (attrs_of c) && skipws (attrs_of c)).
+
 Section Class.
 Variable G : env.
+(* the target of a SkipTo is called without pre-parse at EVERY position of the scan, and hands that on to the component it
+   calls without pre-parse itself (first element of an And, content of a wrapper / Forward): that component must not skip
+   whitespace on its own, for the reading `nopre target` ("the target does not skip, its components do") to apply.
+   Tokens, MatchFirst, Or, Each, lookaheads, repetitions (they call their components with pre-parse) always qualify. *)
+(* the component that an element calls without pre-parse *)
+Definition head_child (e : expr) : option expr :=
+  match e with
+  | Nary _ _ NAnd (c :: _) => Some c
+  | Enh _ _ k c => match k with ENot | EFollowedBy | ELookahead => None | _ => Some c end
+  | Fwd _ _ (Some id) => nth_error G id
+  | _ => None
+  end.
+Definition np_ok (e : expr) : bool :=
+  match head_child e with Some c => nonskip c | None => true end.
 Fixpoint in_class (e : expr) : bool :=
   match e with
   | Tok a ign t => plain_attrs a && match ign with [] => true | _ => false end && tok_in_class t
@@ -274,7 +340,13 @@ Fixpoint in_class (e : expr) : bool :=
     | ENot | EFollowedBy | ELookahead => true
     | _ => false
     end
-  | Rep a ign _ body None => plain_attrs a && match ign with [] => true | _ => false end && in_class body
+  | Rep a ign _ body ne =>
+    (* with stop_on: `ne` is the dumped sentinel NotAny(stop_on), tried (try_parse) before every round *)
+    plain_attrs a && match ign with [] => true | _ => false end && in_class body &&
+    match ne with Some n => in_class n | None => true end
+  | Skip a ign target _ [] None =>
+    (* SkipTo(target, include = any): no private ignore expression; no fail_on (Props/C01.v C01_skipto_fail_on_refuted) *)
+    plain_attrs a && match ign with [] => true | _ => false end && in_class target && np_ok target
   | Fwd a ign (Some id) =>
     plain_attrs a && match ign with [] => true | _ => false end &&
     match nth_error G id with Some c => child_ok a c | None => true end
@@ -286,8 +358,7 @@ Definition env_in_class (G : env) : bool := forallb (in_class G) G.
 
 (* the (wider) class on which the reference reading `peg` is defined and compared with the implementation by the
    correspondence check; `in_class` above is the part covered by the theorem (Proofs/ClassIncl.v: in_class -> in_ref_class).
-   What it has beyond `in_class`: repetition with stop_on, and Combine over any content of the class (Group, Each, Forward
-   inside the Combine). *)
+   What it has beyond `in_class`: Combine over any content of the class (Group, Each, Forward inside the Combine). *)
 Section RefClass.
 Variable G : env.
 Fixpoint in_ref_class (e : expr) : bool :=
@@ -312,6 +383,8 @@ Fixpoint in_ref_class (e : expr) : bool :=
   | Rep a ign _ body ne =>
     plain_attrs a && match ign with [] => true | _ => false end && in_ref_class body &&
     match ne with Some n => in_ref_class n | None => true end
+  | Skip a ign target _ [] None =>
+    plain_attrs a && match ign with [] => true | _ => false end && in_ref_class target && np_ok G target
   | Fwd a ign (Some id) =>
     plain_attrs a && match ign with [] => true | _ => false end &&
     match nth_error G id with Some c => child_ok a c | None => true end
